@@ -1,9 +1,10 @@
 """Native differential replay for the unbounded parser contracts (props/parse_unbounded.py): the plain-Python
 specification specs/parse_spec.py against the real element parsers on a small corpus of well-formed elements.
 input: {"function": "parse_ports"[, "case": n]}"""
+import os
 import sys
 
-sys.path.insert(0, '/verif/native')
+sys.path.insert(0, os.path.dirname(os.path.abspath(__file__)))
 import mkmodel as M  # noqa: E402
 
 M.assert_tree()
@@ -12,7 +13,7 @@ from dznpy import json_ast as J  # noqa: E402
 from specs import parse_spec as S  # noqa: E402
 
 SPEC = {'parse_scope_name': 'scope_name', 'parse_formal': 'formal', 'parse_formals': 'formals',
-        'parse_signature': 'signature', 'parse_event': 'event', 'parse_events': 'events', 'parse_port': 'port',
+        'parse_signature': 'signature', 'parse_event': 'event_checked', 'parse_events': 'events', 'parse_port': 'port',
         'parse_ports': 'ports', 'parse_instance': 'instance', 'parse_instances': 'instances',
         'parse_endpoint': 'endpoint', 'parse_binding': 'binding', 'parse_bindings': 'bindings', 'parse_fields': 'fields',
         'parse_range': 'range_', 'parse_data': 'data', 'parse_namespace': 'namespace', 'parse_root': 'root',
@@ -60,7 +61,11 @@ def corpus():
         'parse_filename': [{'<class>': 'file-name', 'name': 'f.dzn'}],
     }
     return dict(decl, **{
-        'parse_scope_name': sn, 'parse_formal': fm, 'parse_formals': fms, 'parse_signature': sig, 'parse_event': ev,
+        'parse_scope_name': sn, 'parse_formal': fm, 'parse_formals': fms, 'parse_signature': sig,
+        # well-formed events and out events that break the out-event rule (reply value, out / inout parameter)
+        'parse_event': ev + [M.event('B1', 'out', 'My.R'), M.event('B2', 'out', 'void', [fm[1]]),
+                             M.event('B3', 'out', 'R', fm), M.event('B4', 'out', 'void', [fm[0], fm[1]]),
+                             M.event('G1', 'out', 'void', [fm[2]])],
         'parse_events': [lst('events', []), lst('events', ev), lst('events', ev[::-1])],
         'parse_port': pt, 'parse_ports': [lst('ports', []), lst('ports', pt), lst('ports', pt[::-1] + pt[:1])],
         'parse_instance': ins, 'parse_instances': [lst('instances', []), lst('instances', ins + ins[::-1])],
@@ -103,8 +108,74 @@ def check_documents(inp):
                 fail(f'process() [document {k}]: FileContents.{kind} is\n{got!r}\nthe contract requires\n{want!r}')
 
 
+JUNK = [None, True, 7, 0.5, 'x', '', [], {}, [None], ['a', 5], [['a']], {'<class>': 'weird'}, {'<class>': ['enum']},
+        {'<class>': {'k': 1}}, {'<class>': None}, {'<class>': 3}]
+DOCUMENTED = ('DznJsonError', 'NamespaceIdsTypeError')
+
+
+def malformed(e):
+    """the element itself, junk, and every single-point malformation of it (key deleted / value replaced by junk)"""
+    import copy
+    yield e
+    for j in JUNK:
+        yield j
+
+    def walk(node, path):
+        if isinstance(node, dict):
+            for k in list(node):
+                yield path + [k]
+                yield from walk(node[k], path + [k])
+        elif isinstance(node, list):
+            for i, v in enumerate(node):
+                yield path + [i]
+                yield from walk(v, path + [i])
+    for pth in list(walk(e, [])):
+        for repl in ['<delete>'] + JUNK:
+            c = copy.deepcopy(e)
+            cur = c
+            for k in pth[:-1]:
+                cur = cur[k]
+            if repl == '<delete>':
+                if isinstance(cur, dict):
+                    del cur[pth[-1]]
+                else:
+                    cur.pop(pth[-1])
+            else:
+                cur[pth[-1]] = copy.deepcopy(repl)
+            yield c
+
+
+def check_any(inp):
+    """C15: the real parser function on junk and on malformations of its corpus: returns or documented error"""
+    import json
+    fn = inp['function'].rsplit('.', 1)[-1]
+    if fn in ('parse_element', 'process'):
+        seeds, call = documents(), (lambda d: J.DznJsonAst(json.dumps(d)).process())
+    else:
+        base = dict(corpus(), get_class_value=corpus()['parse_data'],
+                    parse_port_injected_indication=corpus()['parse_port'])
+        if fn not in base:
+            print('no native corpus for', fn)
+            raise SystemExit(2)
+        seeds = base[fn]
+        extra = (parents()[1],) if fn in WITH_PARENT else ()
+        call = lambda d: getattr(J, fn)(d, *extra)
+    import io
+    import contextlib
+    for k, seed in enumerate(seeds):
+        for x in malformed(seed):
+            try:
+                with contextlib.redirect_stdout(io.StringIO()):
+                    call(x)
+            except Exception as ex:  # noqa
+                if type(ex).__name__ not in DOCUMENTED:
+                    fail(f'{fn} on {x!r}: internal error {type(ex).__name__}: {ex}')
+
+
 def check_one(inp):
     fn = inp['function'].rsplit('.', 1)[-1]
+    if inp.get('mode') == 'any':
+        return check_any(inp)
     if fn in ('parse_element', 'process'):
         return check_documents(inp)
     if fn not in SPEC:
@@ -119,7 +190,7 @@ def check_one(inp):
                 try:
                     outs.append(('return', f(e, *extra)))
                 except Exception as ex:  # noqa
-                    outs.append(('raise', type(ex).__name__, str(ex)))
+                    outs.append(('raise', type(ex).__name__))
             if outs[0] != outs[1]:
                 fail(f'{fn} [case {k}] on {e!r} {extra!r}: the real parser gives\n{outs[0]!r}\nthe contract requires\n'
                      f'{outs[1]!r}')
